@@ -14,6 +14,7 @@ VARIABLES l, st, skipping, fails, cs
 CInitT(e) ==
   IF e.kind = "call" THEN [kind |-> "call", c |-> e.script, out |-> Outcomes(e.script),
                            tsrc |-> e.tsrc, timeout_ms |-> e.timeout_ms, ctx_ms |-> e.ctx_ms]
+  ELSE IF e.kind = "reuseseq" THEN [kind |-> "reuseseq", reuse |-> e.reuse, calls |-> e.calls, seen |-> 0, allEnded |-> TRUE]
   ELSE [kind |-> "drain", d |-> DInit,
         u |-> [len |-> e.len, chunk |-> e.chunk, eofWithData |-> e.eof_with_data, failAt |-> e.fail_at]]
 
@@ -23,7 +24,9 @@ ObsOf(c, e) ==
     files_closed |-> e.files_closed,
     writer_dead |-> e.leaked = 0,
     resp_closed |-> (e.resp_obtained => e.resp_closes >= 1),
-    drain_ok |-> (c.reuse /\ e.resp_obtained => e.reader_saw_end \/ e.term_before_close) ]
+    \* drained: the reader saw the end, or the stream had reached its own end when it was closed, or the drain was cut
+    \* short by the caller's cancellation / the deadline (never by the call's own cancel)
+    drain_ok |-> (c.reuse /\ e.resp_obtained => e.reader_saw_end \/ e.term_before_close \/ e.drain_cut = "env") ]
 
 Proj(o) == [res |-> o.res, resp |-> o.resp, files_closed |-> o.files_closed, writer_dead |-> o.writer_dead,
             resp_closed |-> o.resp_closed, drain_ok |-> o.drain_ok]
@@ -64,16 +67,31 @@ DrainAllowed(s, e) ==
          /\ DrainedAtClose(d2)
     [] OTHER -> FALSE
 
+SeqAllowed(s, e) ==
+  CASE e.ev = "rcall" -> ~e.panic /\ e.i = s.seen + 1 /\ e.i <= s.calls /\ SeqCallReleased(s.reuse, e)
+    [] e.ev = "rdone" -> s.seen = s.calls /\ e.calls = s.calls /\ SeqConnsAllowed(s.reuse, s.allEnded, e.conns)
+    [] OTHER -> FALSE
+
 MAllowed(s, e) ==
   IF s.kind = "call" THEN e.ev = "call" /\ CallAllowed(s, e)
+  ELSE IF s.kind = "reuseseq" THEN SeqAllowed(s, e)
   ELSE DrainAllowed(s, e)
 
 MStep(s, e) ==
   IF s.kind = "call" THEN s
+  ELSE IF s.kind = "reuseseq" THEN
+       (IF e.ev = "rcall" THEN [s EXCEPT !.seen = @ + 1, !.allEnded = @ /\ (e.reader_saw_end \/ e.term_before_close)] ELSE s)
   ELSE IF e.ev = "read" THEN [s EXCEPT !.d = DRead(s.d, e.req, s.u)] ELSE [s EXCEPT !.d = DClose(s.d, s.u)]
 
 MWhy(s, e) ==
   IF s.kind = "call" THEN (IF e.ev = "call" THEN CallWhy(s, e) ELSE "unknown-event")
+  ELSE IF s.kind = "reuseseq" THEN
+       (IF e.ev = "rcall" THEN
+           (IF e.result # "ok" \/ ~e.resp_obtained THEN "fault-free-call-failed"
+            ELSE IF e.resp_closes < 1 THEN "response-body-not-closed"
+            ELSE "response-body-not-drained-before-close")
+        ELSE IF e.ev = "rdone" THEN "connection-not-reused-although-every-response-was-drained"
+        ELSE "unknown-event")
   ELSE IF e.ev = "read" THEN "keepalive-read-does-not-pass-the-stream-through"
   ELSE IF e.ev = "close" THEN
        (IF e.closes # 1 THEN "keepalive-body-not-closed-once"
